@@ -68,7 +68,9 @@ LEVEL_TEXT = ("Level 'other'. PROVED IN COQ (73 obligations incl. 3 non-vacuity 
               "span, negative, near stored steps within / outside non-zero interpolation tolerances, overbound values present / "
               "None: sample b of the batched query == the batch-1 query of sample b; the 4 adaptive neuron classes with the "
               "adaptation update RUNNING under batch_reduction in {default, mean, sum, amax, amin, a custom callable}: per-sample "
-              "spikes/voltages/refracs == batch-1 ones and batched adaptation == that reduction of the B batch-1 adaptations).")
+              "spikes/voltages/refracs == batch-1 ones and batched adaptation == that reduction of the B batch-1 adaptations; "
+              "the 8 neuron classes with reset_v == rest_v, zero-input phases for some samples only, identical drive within a "
+              "sample and per-sample state assignments).")
 LEVEL_NOTE = ("Not a proof about the code. Trusted: the other properties' models as readings of the code (their correspondence checks), "
               "the comparison harness (tools/impl/c11_impl.py), float64, tolerance 1e-9 relative for continuous values (vectorised vs "
               "scalar libm paths), spikes compared exactly. Axioms: none for the neuron (frozen) / synapse / connection / layer "
@@ -307,6 +309,36 @@ def gen_cases3(rng, n):
     return cases
 
 
+# parameters that make the reset voltage EXACTLY the resting voltage (factory defaults: rest_v = -60 everywhere)
+RESET_AT_REST = {"LIF": {"reset_v": -60.0}, "GLIF1": {"reset_v": -60.0}, "ALIF": {"reset_v": -60.0},
+                 "GLIF2": {"reset_v_add": 0.0, "reset_v_mul": 0.0}, "QIF": {"reset_v": -60.0},
+                 "Izhikevich": {"reset_v": -60.0}, "EIF": {"reset_v": -60.0}, "AdEx": {"reset_v": -60.0}}
+THRESH = {"LIF": -50.0, "GLIF1": -50.0, "ALIF": -50.0, "GLIF2": -50.0, "QIF": -30.0, "Izhikevich": -30.0, "EIF": -30.0,
+          "AdEx": -30.0}
+
+
+def gen_cases4(rng, n):
+    """fourth stream, neurons with exact coincidences, all 8 classes by index: reset voltage == resting voltage (a neuron
+    that just fired sits exactly at rest while refractory), refractory periods longer than a step, per-sample phases of
+    exactly zero input lasting several steps while other samples are driven, neurons of a sample driven identically (fire
+    together), voltages set exactly to rest / reset / threshold and refractory times set through the setters"""
+    cases = []
+    for i in range(n):
+        cls = NEURONS[i % len(NEURONS)]
+        B = rng.choice([2, 2, 3, 4])
+        dt = rng.choice(DTS)
+        kw = {"refrac_t": rng.choice([2 * dt, 3 * dt, 2.5 * dt, dt, 4 * dt])}
+        at_rest = (i // len(NEURONS)) % 3 != 2
+        if at_rest:
+            kw.update(RESET_AT_REST[cls])
+        reset = -60.0 if at_rest else -65.0
+        cases.append({"kind": "neuron", "spec": {"cls": cls, "shape": rng.choice([[1], [2], [3], [2, 2]]), "dt": dt, "kw": kw},
+                      "B": B, "T": rng.randint(20, 45), "seed": rng.randrange(1 << 30), "scale": rng.choice([120.0, 240.0, 400.0]),
+                      "exact": {"uniform": rng.random() < 0.6, "setstate": rng.random() < 0.4,
+                                "levels": [-60.0, reset, THRESH[cls]]}})
+    return cases
+
+
 def run(ctx):
     rng = random.Random(ctx["seed"])
     n = 200 if ctx["tier"] == "quick" else 2000
@@ -314,6 +346,7 @@ def run(ctx):
     # independent generator: the first stream is exactly what it was before the second one existed
     cases += gen_cases2(random.Random(ctx["seed"] * 7919 + 11), 160 if ctx["tier"] == "quick" else 1600)
     cases += gen_cases3(random.Random(ctx["seed"] * 104729 + 13), 150 if ctx["tier"] == "quick" else 1500)
+    cases += gen_cases4(random.Random(ctx["seed"] * 1299709 + 17), 64 if ctx["tier"] == "quick" else 640)
     res = []
     # shard over a few processes
     import concurrent.futures as cf
@@ -332,7 +365,7 @@ def run(ctx):
                           "signature": {"kind": "batch_interaction", "component": c["kind"]}})
     dist = Counter(c["kind"] + ":" + (c.get("trainer") or c["spec"]["cls"]) + ("/resized" if c.get("resize") else "")
                    + ("/hp=" + c["hp"] if c.get("hp") else "") + ("/per-sample-selectors" if c.get("sel") else "")
-                   + ("/" + c["reduction"] if c.get("reduction") else "") for c in cases)
+                   + ("/" + c["reduction"] if c.get("reduction") else "") + ("/exact" if c.get("exact") else "") for c in cases)
     active = sum(1 for r in res if r.get("events", 0) > 0)
     return {
         "evaluations": len(cases),
@@ -349,6 +382,10 @@ def run(ctx):
                 "synapses: batched query sample b == batch-1 query; adaptive neurons (ALIF, GLIF2, Izhikevich, AdEx) x "
                 "batch_reduction {sum, amax, mean, amin, custom, default} with the adaptation update running: batched adaptation "
                 "== the reduction of the batch-1 adaptations; "
+                "fourth stream: all 8 neuron classes with exact coincidences - reset voltage == resting voltage, refractory "
+                "periods of several steps, per-sample phases of exactly zero input while other samples are driven, neurons of a "
+                "sample driven identically, voltage (rest / reset / threshold) and refractory time assigned per sample through "
+                "the setters; "
                 "non-trivial = the run produced spikes / non-zero parts",
         "samples": cases[:2], "component_distribution": dict(dist), "cases_with_activity": active,
         "mismatches": [], "oracle_failures": fails, "traces_validated_against_impl": len(cases) - len(fails),
